@@ -3,6 +3,7 @@
    Non-vacuity examples: Proofs/ChunkExamples.v. *)
 From HV Require Import Base.Prelude Model.Chunk Model.Elem
   Proofs.ChunkLists Proofs.ChunkSpec Proofs.ChunkCoords Proofs.ChunkTiling Proofs.Elem Proofs.ChunkExamples.
+From HV Require Import Model.ChunkIndex Proofs.ChunkIndex.
 From Coq Require Import Permutation.
 
 (* every rank >= 1, every positive extents / chunk extents (larger, equal, non-dividing), every
@@ -59,3 +60,101 @@ Theorem C01_widen_exact : forall z, (0 < Z.abs z < 2 ^ 53)%Z ->
      (Z.of_N (N.log2 (Z.to_N (Z.abs z))) - 52)%Z).
 Proof. exact f64_of_Z_exact. Qed.
 Print Assumptions C01_widen_exact.
+
+(* ---- the chunk index (version 1 B-tree, node type 1) between the chunk writer and the chunk reader:
+   Model/ChunkIndex.v, Proofs/ChunkIndex.v ---- *)
+
+(* every rank, every number of entries up to 65534 (index_pre; beyond: the two _refuted theorems below), every
+   offsets/addresses/sizes that fit their fields: the reader (ParseBTreeV1Node + CollectAllChunks on the bytes
+   WriteToFile produced) returns exactly the written entries, each once, in the writer's sort order, offsets divided
+   by the chunk extents, filter mask 0; never Panic / out of fuel *)
+Theorem C01_index_roundtrip_partial : forall cdims es f eof,
+  index_pre cdims es eof = true ->
+  exists f',
+    write_index (length cdims) es f eof = Outcome.Ok (f', eof + Bytes.blen (serialize_leaf (length cdims) es), eof) /\
+    read_index f' eof 8 cdims = COk (map (expected_entry cdims) (sort_entries es)).
+Proof. exact index_roundtrip. Qed.
+Print Assumptions C01_index_roundtrip_partial.
+
+(* ... and the sort is a permutation: every written entry appears exactly once, nothing else appears *)
+Theorem C01_index_sort_permutation : forall es, Permutation (sort_entries es) es.
+Proof. exact sort_entries_perm. Qed.
+Print Assumptions C01_index_sort_permutation.
+
+(* 65535 entries: WriteToFile succeeds, the reader panics (len(Keys) = uint16(65535 + 1) = 0) *)
+Theorem C01_index_roundtrip_refuted_65535 : forall cdims es f eof,
+  all_pos cdims = true -> Forall (fun e => entry_ok (length cdims) e = true) es ->
+  N.of_nat (length es) = 65535 ->
+  eof + Bytes.blen (serialize_leaf (length cdims) es) <= MAXINT64 ->
+  exists f' eof',
+    write_index (length cdims) es f eof = Outcome.Ok (f', eof', eof) /\
+    read_index f' eof 8 cdims = CPanic.
+Proof. exact index_65535_refuted. Qed.
+Print Assumptions C01_index_roundtrip_refuted_65535.
+
+(* 65536 entries (any multiple): WriteToFile succeeds, entries used = uint16(65536) = 0, the reader returns no
+   chunk and no error *)
+Theorem C01_index_roundtrip_refuted_65536 : forall cdims es f eof,
+  Forall (fun e => entry_ok (length cdims) e = true) es ->
+  es <> [] -> wrap16 (N.of_nat (length es)) = 0 ->
+  eof + 24 <= MAXINT64 ->
+  exists f' eof',
+    write_index (length cdims) es f eof = Outcome.Ok (f', eof', eof) /\
+    read_index f' eof 8 cdims = COk [] /\ map (expected_entry cdims) (sort_entries es) <> [].
+Proof. exact index_count_wraps_refuted. Qed.
+Print Assumptions C01_index_roundtrip_refuted_65536.
+
+(* the reader's coordinate lookup (the chunkIndex map of the hyperslab reader; lookup_chunk): when the reader's
+   key -> coordinate map (division by the chunk extents) is injective on the written keys, every written entry is
+   found under its coordinate with its own address and size, and nothing is found under any other coordinate *)
+Theorem C01_index_lookup_partial : forall cdims es f eof,
+  index_pre cdims es eof = true ->
+  NoDup (map (sc_of cdims) es) ->
+  exists f' chunks,
+    write_index (length cdims) es f eof = Outcome.Ok (f', eof + Bytes.blen (serialize_leaf (length cdims) es), eof) /\
+    read_index f' eof 8 cdims = COk chunks /\
+    (forall e, In e es -> lookup_chunk (length cdims) chunks (sc_of cdims e) = Some (w_addr e, w_nbytes e)) /\
+    (forall c, ~ In c (map (sc_of cdims) es) -> lookup_chunk (length cdims) chunks c = None).
+Proof. exact index_lookup. Qed.
+Print Assumptions C01_index_lookup_partial.
+
+(* ... and on the keys the dataset writer produces (chunk coordinate times chunk extent) that map is injective:
+   different chunk coordinates are never confused *)
+Theorem C01_index_keys_injective : forall cdims coords,
+  posl cdims -> Forall (fun c => length c = length cdims) coords -> NoDup coords ->
+  NoDup (map (fun c => scaled_of_key cdims (chunk_key cdims c)) coords).
+Proof. exact grid_keys_injective. Qed.
+Print Assumptions C01_index_keys_injective.
+
+(* reader side of the composition, all ranks / grids / element sizes / data: when the index of the file reads back as
+   a permutation of the written entries (C01_index_roundtrip_partial), the written keys are the offsets of the grid
+   chunks, and the file holds for every entry the padded chunk of its coordinate at the recorded address with the
+   recorded size, readChunkedData returns the data (index -> chunk bytes -> placement, C01_chunk_tiling inside) *)
+Theorem C01_chunked_read_composition : forall dims cdims esz data,
+  shape_ok dims cdims esz -> lenN data = vol dims esz ->
+  forall f root es,
+  vol dims esz <= MAX_CHUNK * 1024 -> esz <= 4294967295 ->
+  (exists S, Permutation S es /\ read_index f root 8 cdims = COk (map (expected_entry cdims) S)) ->
+  Permutation (map w_coord es) (map (chunk_key cdims) (all_chunk_coords dims cdims)) ->
+  Forall (entry_stored dims cdims esz data f) es ->
+  read_chunked_file f root 8 dims cdims esz = COk data.
+Proof. exact read_chunked_file_correct. Qed.
+Print Assumptions C01_chunked_read_composition.
+
+(* write the index after the chunks, read everything back.  _partial: the chunk loop of writeChunkedData
+   (write_chunk_loop: allocate at the end of file, write, record address and size) is modelled but its effect is a
+   HYPOTHESIS here - every recorded entry has its chunk's bytes at its address, below the index's address
+   (entry_stored, w_addr + w_nbytes <= eof) - and so is "the recorded keys are the grid offsets"; what is proved is
+   that the index write keeps those bytes and that the reader then returns exactly the data.  Filters: none
+   (identity); entry count <= 65534 (index_pre). *)
+Theorem C01_chunked_end_to_end_partial : forall dims cdims esz data es f eof,
+  shape_ok dims cdims esz -> lenN data = vol dims esz ->
+  vol dims esz <= MAX_CHUNK * 1024 -> esz <= 4294967295 ->
+  index_pre cdims es eof = true ->
+  Permutation (map w_coord es) (map (chunk_key cdims) (all_chunk_coords dims cdims)) ->
+  Forall (fun e => entry_stored dims cdims esz data f e /\ w_addr e + w_nbytes e <= eof) es ->
+  exists f',
+    write_index (length dims) es f eof = Outcome.Ok (f', eof + Bytes.blen (serialize_leaf (length cdims) es), eof) /\
+    read_chunked_file f' eof 8 dims cdims esz = COk data.
+Proof. exact chunked_end_to_end_partial. Qed.
+Print Assumptions C01_chunked_end_to_end_partial.
